@@ -10,6 +10,9 @@ def _q(c, quick, thorough):
 
 
 # ------------------------------------------------------------------------ C08
+NON_ASCII_DIGITS = ['\u0663', '\u0968', '\uff13', '\u0e53']
+
+
 def check_C08(c):
     n_mc = _q(c, 3, 4)
     c.mc('MC_Lexer', f'MC_Lexer_{n_mc}.cfg', workers=16, heap='8g')
@@ -29,6 +32,12 @@ def check_C08(c):
     # between role, symbol, alignment and parenthesis: every text up to length 5 / 6 over two small alphabets
     for small in (['~', 'e', '.', '1', ',', ' ', 'a'], [':', 'a', '-', '~', '1', ' ', '(']):
         for s in gen.all_strings(small, _q(c, 5, 6), 2):
+            jobs.append(('tr_lex', dict(text=s, triple=False)))
+    # a decimal digit outside ASCII (Arabic-Indic, Devanagari, fullwidth, Thai - one per seed) is a name character like any
+    # letter: the documented alignment takes [0-9] only.  Every text up to length 5 / 6 over the alignment alphabet that has one.
+    xd = NON_ASCII_DIGITS[c.seed % len(NON_ASCII_DIGITS)]
+    for s in gen.all_strings(['~', 'e', '.', '1', xd, ',', 'a'], _q(c, 5, 6), 2):
+        if xd in s:
             jobs.append(('tr_lex', dict(text=s, triple=False)))
     # sample of the next lengths
     for ln, cnt in _q(c, [(4, 4000), (5, 2500), (6, 1500)], [(5, 150000), (6, 60000), (7, 30000)]):
@@ -119,6 +128,10 @@ def check_C07(c):
         texts.append(s)
     for _ in range(_q(c, 500, 10000)):
         texts.append(gen.random_text(c.rng, 25))
+    # alignments written with decimal digits outside ASCII: not alignments (the '~' is then an unexpected character)
+    for xd in NON_ASCII_DIGITS:
+        for t in ('(a / b~e.%s)', '(a :r~1,%s b)', '(a / b :ARG0~%s c)', '(a / b~e.1%s)', '(a / b~%s,2 :r c)', '(a :r b~x.%s1 )', '(a / %s)', '(a :op%s b)'):
+            texts.append(t % xd)
     for d in _q(c, [1, 2, 50, 200], [1, 2, 3, 10, 50, 100, 150, 199, 200]):
         node = gen.deep_tree(c.rng, d)
         s = penman.format(penman.Tree(node), indent=None)
@@ -312,11 +325,16 @@ def check_C19(c):
             v = _variants([tuple(t) for t in ts]) if len(ts) <= 4 else []
             v = (v if ind else v[:3]) + (_mixed_variants(c, [tuple(t) for t in ts], 3) if len(ts) >= 2 else [])
             jobs.append(('tr_triples', dict(ts=ts, indent=ind, variants=v, via=('module', 'module', 'codec', 'module', 'codec-amr')[len(jobs) % 5])))
+    # long conjunctions: more triples than the interpreter has stack frames by default (one triple per line; on one line in
+    # the thorough tier - the specification's lexer needs minutes for a line of that length)
+    for n, ind in _q(c, [(1100, True)], [(1100, True), (2500, True), (1200, False)]):
+        big = [['v%d' % (i % 7), ':r%d' % (i % 3), ('w%d' % (i % 5)) if i % 11 else '"s, (t) ^ %d"' % i] for i in range(n)]
+        jobs.append(('tr_triples', dict(ts=big, indent=ind, variants=[], via='module' if n % 200 else 'codec')))
     traces = pmake(jobs, optimized_share=0.02)
     c.judge('J_Syntax', traces, 'triples', nontrivial=lambda t: len(t['ts']) >= 2 or any(x[2].startswith('"') for x in t['ts']))
     c.rule = ('triple lists of every decodable corpus graph and random lists (targets: symbols, numerals, quoted strings with '
               'blanks, commas, parentheses, carets, escapes) x both line styles x the 12 documented spacing variants, through the '
-              'module-level functions (3 of 5) or the methods of a codec (default / AMR model); '
+              'module-level functions (3 of 5) or the methods of a codec (default / AMR model); conjunctions of 1100+ triples; '
               'non-trivial = two or more triples or a quoted target; distinct by input')
     c.assumptions += ['sources, roles and symbol targets containing a comma, and the bare symbol ^, are outside the notation (TripleSafe)']
 
